@@ -71,9 +71,40 @@ def _switch_after_call(f, bb):
             elif rv[0] == "un" and rv[1] == "Not" and op_local(rv[2]) in aliases:
                 aliases[pl] = not aliases[op_local(rv[2])]
                 changed = True
+            elif rv[0] == "use" and op_place(rv[1]) is not None and place_projs(op_place(rv[1])):
+                # a field of a tuple the bool was put into (`match (list.is_empty(), as_json) { .. }`)
+                p = op_place(rv[1])
+                fs = proj_fields(place_projs(p))
+                if len(fs) == 1 and fs[0][0] == "tuple":
+                    for d in f.whole_defs(place_local(p)):
+                        if d[0] == "assign" and d[3][0] == "agg" and d[3][1][0] == "tuple":
+                            idx = int(fs[0][1]) if str(fs[0][1]).isdigit() else None
+                            if idx is not None and idx < len(d[3][2]) and op_local(d[3][2][idx]) in aliases:
+                                aliases[pl] = aliases[op_local(d[3][2][idx])]
+                                changed = True
+    # the tuple field may also be switched on directly
+    tup = {}
+    for b2, si, pl, rv, sp in f.assigns():
+        if rv[0] == "agg" and rv[1][0] == "tuple" and isinstance(pl, int):
+            for idx, o in enumerate(rv[2]):
+                if op_local(o) in aliases:
+                    tup[(pl, str(idx))] = aliases[op_local(o)]
     for b2, b in enumerate(f.blocks):
         t = b["t"]
-        if t[0] == "switch" and op_local(t[1]) in aliases:
+        if t[0] == "switch" and op_place(t[1]) is not None and place_projs(op_place(t[1])):
+            p = op_place(t[1])
+            fs = proj_fields(place_projs(p))
+            if len(fs) == 1 and fs[0][0] == "tuple" and (place_local(p), str(fs[0][1])) in tup:
+                neg = tup[(place_local(p), str(fs[0][1]))]
+                false_t = [tg for v, tg in t[2] if v == 0]
+                if false_t:
+                    tt, ft = t[3], false_t[0]
+                    if neg:
+                        tt, ft = ft, tt
+                    return (b2, tt, ft)
+    for b2, b in enumerate(f.blocks):
+        t = b["t"]
+        if t[0] == "switch" and op_local(t[1]) in aliases and not place_projs(op_place(t[1])):
             neg = aliases[op_local(t[1])]
             false_t = [tg for v, tg in t[2] if v == 0]
             if not false_t:
@@ -648,7 +679,14 @@ def r11b_exit_status(ctx):
     exits = []
     for bb, c in f.calls():
         if (c.get("res") or "") == "std::process::exit" and src[0] in dom.get(bb, set()):
-            exits.append((bb, _const_value(f, c["args"][0])))
+            cv = _const_value(f, c["args"][0])
+            if cv is None and op_local(c["args"][0]) is not None:
+                # `let code = match .. { .. => 0, .. => 1 }; exit(code)`: each arm that sets the code is an exit point of its own
+                arms = [(d[1], (op_const(d[3][1]) or {}).get("v")) for d in _const_defs(f, op_local(c["args"][0]))]
+                if arms and all(v is not None for _b, v in arms):
+                    exits += arms
+                    continue
+            exits.append((bb, cv))
     empties = [(bb, _switch_after_call(f, bb)) for bb, c in f.calls()
                if (c.get("res") or "").endswith("::is_empty") and _root(f, c["args"][0]) == v]
     empties = [(bb, sw) for bb, sw in empties if sw]
@@ -703,6 +741,21 @@ def r11b_exit_status(ctx):
     r.counts["iterations_of_unused"] = len(set(loops) | set(iters))
     r.floor("iterations over the unused list (one per output format)", len(set(loops) | set(iters)), 2)
     return r
+
+
+def _const_defs(f, l, depth=0):
+    out = []
+    for d in f.whole_defs(l):
+        if d[0] == "assign" and d[3][0] == "use":
+            if op_const(d[3][1]) is not None:
+                out.append(d)
+            elif op_local(d[3][1]) is not None and depth < 4 and not place_projs(op_place(d[3][1])):
+                out += _const_defs(f, op_local(d[3][1]), depth + 1)
+            else:
+                return []
+        else:
+            return []
+    return out
 
 
 def _const_value(f, op, depth=0):
